@@ -159,6 +159,25 @@ def rule_R2(ctx):
             if fam == "http":
                 _symmetric(ctx, P, b, ins, fn)
     ctx.floor("R2", "hash inputs classified", n, 20)
+    # the per-version helpers are applied to the IP packet (the frame without its link-layer header) in both arms
+    for crate, fam in CRATES.items():
+        if fam == "tcp":
+            continue
+        hb = P.bodies.get("%s::packet_hash::hash_flow" % crate)
+        if hb is None:
+            ctx.cannot("R2", fam + ":hash_flow:ip-slice", "hash_flow not found")
+            continue
+        HS = T.Slicer(hb, P)
+        for blk, t in hb.calls():
+            nm = callee_of(t).rsplit("::", 1)[-1]
+            if nm not in ("hash_ipv4_flow", "hash_ipv6_flow"):
+                continue
+            a = Q.call_args(hb, HS, blk, t)
+            sr = FI.slice_range(a[0])
+            okslice = sr is not None and sr[0] == "from" and T.strip(sr[3])[0] == "param" and any(T.fold_int(x) == 14 for x in (T.walk(sr[1])) if x[0] == "const")
+            ctx.check(okslice, "R2", "%s:hash_flow:%s:ip-slice" % (fam, nm), "%s(&packet[ip_start..])" % nm,
+                      "%s is handed %s instead of the frame without its link header: for Ethernet frames the helper reads its offsets 14 bytes early and the chosen worker "
+                      "depends on MAC / length / hop-limit bytes" % (nm, T.pp(T.strip(a[0]))[:60]), ctx.loc(hb, blk))
 
 
 def _symmetric(ctx, P, b, ins, fn):
